@@ -353,7 +353,7 @@ def gen_mdp_run(rng, tier):
          "use_global": bool(opts.get("use_global")), "twice": rng.random() < .1,
          "stream": gen_stream(rng, 2 * capn + 3, dyadic, tiny),
          "gstream": gen_stream(rng, (2 * capn + 3) if opts.get("use_global") else 4, dyadic, tiny)}
-    if rng.random() < .3:
+    if rng.random() < .4:
         # the same policy object is run a second time: on the same MDP object, or on a second MDP object with the
         # same labels and structure but other numbers
         cap2 = rng.choice([0, 1, 2, 5, "large"])
@@ -376,8 +376,43 @@ def gen_mdp_run(rng, tier):
             if rng.random() < .5:
                 j = rng.randrange(m2["n"])           # a different stopping structure as well
                 m2["absorbing"][j] = not m2["absorbing"][j]
+        pol2, inplace = None, False
+        if m2 is not None and opts.get("repr") != "matrices" and rng.random() < .6:
+            # the SAME distribution / reward / flag objects are updated IN PLACE between the two roll-outs (item assignment on
+            # the DictDistributions handed out by the MDP, its initial distribution and the functional policy): the second
+            # roll-out must follow their CURRENT contents
+            inplace = True
+            m2["init"] = [[s_, p_] for (s_, _), p_ in zip(m2["init"], [p for _, p in m2["init"]][1:] + [m2["init"][0][1]])]
+
+            def concentrate(items):
+                """all the mass on one entry, the others 0: whatever was likely before is impossible now"""
+                if len(items) < 2 or rng.random() < .5:
+                    return items
+                tot = sum(F(w) for _, w in items)
+                j = rng.randrange(len(items))
+                return [[x, (str(tot) if i == j else "0")] for i, (x, _) in enumerate(items)]
+            for k in sorted(m2["trans"]):
+                m2["trans"][k] = concentrate(m2["trans"][k])
+            m2["init"] = concentrate(m2["init"])
+            for k in list(m2["reward"]):
+                s_, a_, ns_ = map(int, k.split(","))
+                if dweight({"t": "dict", "items": m2["trans"]["%d,%d" % (s_, a_)]}, ns_) == 0:
+                    del m2["reward"][k]
+            cap2 = rng.choice([2, 5, 5, "large"])
+            capn2 = 40 if cap2 == "large" else cap2
+            if c["policy"]["kind"] == "functional":
+                pol2 = copy.deepcopy(c["policy"])
+                for d in pol2["dists"]:
+                    if d["t"] == "dict" and len(d["items"]) >= 2:
+                        ws = [w for _, w in d["items"]]
+                        ws = ws[1:] + ws[:1]
+                        d["items"] = concentrate([[x, w] for (x, _), w in zip(d["items"], ws)])
+                # an action that becomes possible must be available in the state (zero entries may name any action id)
+                for s_, d in enumerate(pol2["dists"]):
+                    if d["t"] == "dict" and any(F(w) > 0 and x not in m["actions"][s_] for x, w in d["items"]):
+                        pol2["dists"][s_] = c["policy"]["dists"][s_]
         c["second"] = {"mdp": m2, "s0": None if rng.random() < .5 else rng.randrange(m["n"]), "cap": cap2,
-                       "use_global": False, "omit_s0": False,
+                       "use_global": False, "omit_s0": False, "mdp_inplace": inplace, "policy": pol2,
                        "stream": gen_stream(rng, 2 * capn2 + 3, dyadic), "gstream": gen_stream(rng, 4, dyadic)}
     return c
 
@@ -415,6 +450,27 @@ def gen_mdp_eval(rng, tier, deterministic):
             "n_sims": n_sims, "dyadic": dyadic, "deterministic": deterministic, "step_guard_total": 45 + n_sims,
             "opts": opts, "boundary": bfeats,
             "stream": gen_stream(rng, n_sims * (2 * capn + 1) + 3, dyadic, tiny), "gstream": gen_stream(rng, 16, dyadic)}
+
+
+def gen_high_volume(rng, variant):
+    """evaluate_on with more than 1e5 recorded visits of one state (and of one state-action pair): a 1- or 2-state cyclic task,
+    deterministic steps (only the start is drawn), judged in Python on the recorded roll-outs (identical roll-outs recorded once
+    with their multiplicity)"""
+    if variant == 1:
+        m = {"n": 1, "nA": 1, "actions": [[0]], "trans": {"0,0": [[0, "1"]]}, "reward": {"0,0,0": str(F(rng.randint(1, 8), 4))},
+             "absorbing": [False], "init": [[0, "1"]], "gamma": rng.choice(["127/128", "63/64"])}
+        policy = {"kind": "functional", "dists": [{"t": "det", "x": 0}]}
+        n_sims, cap = rng.randint(230, 260), rng.randint(450, 480)
+    else:
+        m = {"n": 2, "nA": 2, "actions": [[0, 1], [0, 1]],
+             "trans": {"0,0": [[1, "1"]], "0,1": [[0, "1"]], "1,0": [[0, "1"]], "1,1": [[1, "1"]]},
+             "reward": {"0,0,1": str(F(rng.randint(1, 8), 2)), "1,0,0": str(F(rng.randint(-8, -1), 4))},
+             "absorbing": [False, False], "init": [[0, "1/2"], [1, "1/2"]], "gamma": rng.choice(["127/128", "63/64"])}
+        policy = {"kind": "functional", "dists": [{"t": "dict", "items": [[0, "1"]]}, {"t": "det", "x": 0}]}
+        n_sims, cap = rng.randint(300, 330), rng.randint(680, 720)
+    return {"kind": "mdp_eval", "mdp": m, "policy": policy, "cap": cap, "n_sims": n_sims, "dyadic": True, "deterministic": False,
+            "step_guard_total": n_sims * (cap + 2), "opts": {}, "boundary": [], "python_only": True, "high_volume": True,
+            "stream": gen_stream(rng, 2 * n_sims + 3, True, 0), "gstream": gen_stream(rng, 4, True)}
 
 
 def gen_long(rng, tier, evaluate):
@@ -764,17 +820,29 @@ def eval_clauses(case, res):
     """evaluate_on must report the averages of ITS OWN roll-outs (exact oracle on the recorded roll-outs)"""
     g = F(float(F(case["mdp"]["gamma"])))
     n = case["n_sims"]
-    sv, av, ivs = {}, {}, []
+    class Acc(object):          # sum and count of a multiset of returns (identical roll-outs are recorded once, with "mult")
+        def __init__(self):
+            self.tot, self.cnt = F(0), 0
+
+        def add(self, r, k):
+            self.tot += r * k
+            self.cnt += k
+
+        def __len__(self):
+            return self.cnt
+    sv, av, ivs, nro = {}, {}, Acc(), 0
     for ro in res["rollouts"]:
         steps = ro["steps"]
+        k = int(ro.get("mult", 1))
+        nro += k
         states = [st[0] for st in steps] + [ro["final"]]
         acts = [st[1] for st in steps] + [None]
         rets = returns_rec([vlib.frac(st[3]) for st in steps] + [F(0)], g)
-        ivs.append(rets[0])
+        ivs.add(rets[0], k)
         for r, s, a in zip(rets, states, acts):
-            sv.setdefault(s, []).append(r)
-            av.setdefault((s, a), []).append(r)
-    if len(res["rollouts"]) != n:
+            sv.setdefault(s, Acc()).add(r, k)
+            av.setdefault((s, a), Acc()).add(r, k)
+    if nro != n:
         return "number of roll-outs differs from n_simulations"
     isv = {s: v for s, v in res["state_value"]}
     iocc = {s: v for s, v in res["occupancy"]}
@@ -784,14 +852,14 @@ def eval_clauses(case, res):
     if set(iav) != set(av):
         return "action-value table does not cover exactly the visited (state, action) pairs"
     for s, xs in sv.items():
-        if isinstance(isv[s], str) or not close(vlib.frac(isv[s]), sum(xs) / len(xs)):
+        if isinstance(isv[s], str) or not close(vlib.frac(isv[s]), xs.tot / len(xs)):
             return "state value is not the mean of the returns from that state"
         if isinstance(iocc[s], str) or not close(vlib.frac(iocc[s]), F(len(xs), n)):
             return "occupancy is not visits / n_simulations"
     for k, xs in av.items():
-        if isinstance(iav[k], str) or not close(vlib.frac(iav[k]), sum(xs) / len(xs)):
+        if isinstance(iav[k], str) or not close(vlib.frac(iav[k]), xs.tot / len(xs)):
             return "action value is not the mean of the returns after that (state, action)"
-    if isinstance(res["initial_value"], str) or not close(vlib.frac(res["initial_value"]), sum(ivs) / len(ivs)):
+    if isinstance(res["initial_value"], str) or not close(vlib.frac(res["initial_value"]), ivs.tot / len(ivs)):
         return "initial value is not the mean of the first returns"
     return None
 
@@ -884,6 +952,7 @@ def run(ctx):
                  + [gen_pomdp_run(rng, tier, probe=(i == 0)) for i in range(120 * k)]
                  + [gen_returns(rng) for _ in range(30 * k)]
                  + [gen_long(rng, tier, evaluate=(i % 3 == 2)) for i in range(3 if tier == "quick" else 12)]
+                 + [gen_high_volume(rng, 1 + i % 2) for i in range(2 if tier == "quick" else 4)]
                  + [gen_returns(rng, "long_half") for _ in range(2 if tier == "quick" else 8)]
                  + [gen_returns(rng, "long_small") for _ in range(6 if tier == "quick" else 40)])
     impl = ctx.impl("c14_impl.py", {"cases": cases}, shards=8 if tier == "quick" else 16)["results"]
@@ -894,7 +963,7 @@ def run(ctx):
         if isinstance(res, dict) and "second" in res and "second" in case:
             sec = case["second"]
             c2 = {k: v for k, v in case.items() if k != "second"}
-            c2.update({k: v for k, v in sec.items() if k != "mdp"})
+            c2.update({k: v for k, v in sec.items() if k not in ("mdp", "policy") or (k == "policy" and v is not None)})
             if sec.get("mdp") is not None:
                 c2["mdp"] = sec["mdp"]
             c2["_parent"] = case
@@ -1063,7 +1132,7 @@ def run(ctx):
                     or src["draws_outside_requests"]:
                 mismatch(case, res, "trajectory", v, clause)
             o = case.get("opts") or {}
-            for f in (["reuse_second_run"] if "_parent" in case else []) + (["reuse_second_mdp"] if "_parent" in case and case["_parent"]["second"].get("mdp") else []) \
+            for f in (["reuse_second_run"] if "_parent" in case else []) + (["reuse_inplace_mutated_distributions"] if case.get("mdp_inplace") else []) + (["reuse_second_mdp"] if "_parent" in case and case["_parent"]["second"].get("mdp") else []) \
                     + (["labels"] if o.get("labels") else []) + (["repr_matrices"] if o.get("repr") == "matrices" else []) \
                     + (["touched_before"] if o.get("touch") else []) + (["rng_default_global"] if ug else []) \
                     + (["s0_omitted"] if case.get("omit_s0") and case["s0"] is None else []) + list(case.get("boundary") or []) \
@@ -1306,6 +1375,13 @@ def run(ctx):
                 st_ = [[s_, a_, ns_, vlib.frac(r_)] for s_, a_, ns_, r_, _ in ro["steps"]]
                 clause = clause or mdp_clauses(case, st_, ro["final"], None, case["cap"])
                 feats["long_episode_steps"] = feats.get("long_episode_steps", 0) + len(st_)
+            if case.get("high_volume"):
+                vis = {}
+                for ro in res["rollouts"]:
+                    for s_ in ro["acc_state"]:
+                        vis[s_] = vis.get(s_, 0) + int(ro.get("mult", 1))
+                feats["high_volume_evaluations"] = feats.get("high_volume_evaluations", 0) + 1
+                feats["high_volume_max_visits_of_a_state"] = max(feats.get("high_volume_max_visits_of_a_state", 0), max(vis.values()))
             if clause:
                 mismatch(case, {"initial_value": res["initial_value"], "n_rollouts": len(res["rollouts"])}, "long evaluation", None, clause)
         distinct.add(vlib.structural_hash([case["mdp"], case["policy"], case["cap"], case["kind"]]))
@@ -1372,7 +1448,10 @@ def run(ctx):
                 "rewards (0.1, 1/3, 22/7) with rewards compared bit-exactly to the doubles msdm was given; one distribution object shared "
                 "by equal rows and one action list shared by states, inputs snapshotted before/after; first result re-read after a second "
                 "call, second evaluate_on on the same policy, same problem built twice in a process; int-typed rewards/probabilities, "
-                "integer and float32 arrays; one state / action / observation; episodes of 1100..1500 steps (Python-only exact clauses); distinct = structural hash of "
+                "integer and float32 arrays; one state / action / observation; distribution / reward / absorbing-flag objects updated IN PLACE "
+                "between two roll-outs of the same policy object (second roll-out judged against the current contents); evaluate_on with "
+                "more than 1e5 recorded visits of one state (230..330 simulations x 450..720 steps on 1- and 2-state cycles, Python-only "
+                "exact counts and means from the recorded roll-outs); episodes of 1100..1500 steps (Python-only exact clauses); distinct = structural hash of "
                 "(model, policy, start, cap, trajectory); non-trivial = at least one step taken (returns: length > 1)" % (5 if tier == "quick" else 7),
         "samples": [{"case": cases[0], "impl": impl[0]}] if cases else [],
         "by_kind": counts, "by_cap": caps, "input_features": feats, "skipped": skipped, "cases": len(cases),
